@@ -1,12 +1,188 @@
-//! C13 - not implemented yet
+//! C13 - values encode integers faithfully, in bytes and in JSON.
+//!
+//! Bounded-exhaustive exploration of the conversion API of `Value` / `TypedValue`:
+//!  * `scalar`  : Value::from_scalar / TypedValue::from_scalar and the ten scalar getters
+//!  * `flat`    : from_flattened_array(_u64) / from_ndarray, the ten flattened getters, the eleven to_ndarray
+//!  * `bits`    : bit arrays of every length 1..=17 with every pattern (striped patterns for longer ones)
+//!  * `ctype`   : check_type / TypedValue::new for every byte length 0..=40 and wrong-arity trees
+//!  * `json`    : TypedValue -> JSON text -> TypedValue over a nested type alphabet x value alphabet
+//! Oracle: native integer casts (`as`) for reduction / sign extension, the byte layout helpers of
+//! `vals.rs`, and an expected-JSON builder written here.
 use crate::common::Report;
+use serde_json::{json, Value as J};
+use std::collections::BTreeMap;
 
-pub fn run(_r: &Report) -> i32 {
-    println!("MACHINERY-ERROR property=C13 check not implemented");
-    2
+#[macro_use]
+mod ints;
+mod conv;
+mod ctype;
+mod tjson;
+
+/// one failed expectation
+#[derive(Clone, Debug)]
+pub struct Fail {
+    pub sig: String,
+    pub what: String,
+    pub case: J,
 }
 
-pub fn replay(_r: &Report, _rec: &serde_json::Value) -> i32 {
-    println!("MACHINERY-ERROR property=C13 replay not implemented");
-    2
+/// per-partition accumulator; merged into the Report in enumeration order
+#[derive(Default)]
+pub struct Acc {
+    pub counters: BTreeMap<&'static str, u64>,
+    pub fails: Vec<Fail>,
+    pub nviol: u64,
+    pub distinct: Vec<u64>,
+    pub samples: Vec<J>,
+    pub by_sig: BTreeMap<String, u64>,
+}
+
+/// violating cases per signature over the whole run (written to the evidence file)
+static BY_SIG: std::sync::Mutex<BTreeMap<String, u64>> = std::sync::Mutex::new(BTreeMap::new());
+
+impl Acc {
+    pub fn c(&mut self, k: &'static str, n: u64) {
+        *self.counters.entry(k).or_insert(0) += n;
+    }
+    pub fn fail(&mut self, sig: String, what: String, case: &dyn Fn() -> J) {
+        self.nviol += 1;
+        *self.by_sig.entry(sig.clone()).or_insert(0) += 1;
+        if self.fails.iter().any(|f| f.sig == sig) {
+            return;
+        }
+        self.fails.push(Fail { sig, what, case: case() });
+    }
+    pub fn merge_into(self, r: &Report) {
+        for (k, v) in self.counters.iter() {
+            r.count(k, *v);
+        }
+        for h in self.distinct.iter() {
+            r.distinct(*h);
+        }
+        for s in self.samples.into_iter() {
+            r.sample(s);
+        }
+        {
+            let mut g = BY_SIG.lock().unwrap();
+            for (k, v) in self.by_sig.iter() {
+                *g.entry(k.clone()).or_insert(0) += *v;
+            }
+        }
+        let kept = self.fails.len() as u64;
+        for f in self.fails.into_iter() {
+            r.violation(&f.sig, &f.what, f.case);
+        }
+        if self.nviol > kept {
+            r.count("violating_cases", self.nviol - kept);
+        }
+    }
+}
+
+pub fn run(r: &Report) -> i32 {
+    let thorough = r.tier.thorough();
+    let timing = std::env::var("VERIF_TIMING").is_ok();
+    let lap = |what: &str| {
+        if timing {
+            eprintln!("C13 timing: {} done at {:.2}s", what, r.elapsed());
+        }
+    };
+    conv::run_scalar(r, thorough);
+    lap("scalar");
+    conv::run_flat(r, thorough);
+    lap("flat");
+    conv::run_bits(r, thorough);
+    lap("bits");
+    ctype::run(r, thorough);
+    lap("ctype");
+    tjson::run(r, thorough);
+    lap("json");
+    r.extra("violating_cases_by_signature", json!(*BY_SIG.lock().unwrap()));
+    r.finish(
+        "exploration",
+        "scalar: every (scalar type, input integer, Rust input type the integer fits in): integers = [-2^w, 2^(w+1)] for the 8/16-bit types, \
+         {0,+-1,+-2^k,+-2^k+-1 : k<=128} + min/max of every width for all types; flat/ndarray: every (constructor, scalar type, shape, input type) \
+         on the boundary alphabet, all ten getters, same-size reinterpretations; bits: every pattern of every length 1..=17 (striped for longer); \
+         ctype: every value (bytes of length 0..=40 x 3 fills, well-formed trees and all single-point mutants) x every type of the alphabet; \
+         json: every type of the nested alphabet (depth<=2) x rotating value alphabet, all 8/16-bit scalars. \
+         distinct_nontrivial = distinct (section, type, input) tuples with a non-zero input",
+        true,
+        &[
+            "check_type is required to check sizes/arity only: its doc comment and examples speak of byte lengths; stray high bits in the last byte of a bit array are accepted and must be ignored by the readers (counted in ctype_stray_bits_accepted)",
+            "from_scalar/from_flattened_array on BIT accept exactly {0,1} (bytes.rs: 'Input is not a bit'); other inputs must be an error, not a silent reduction",
+            "from_flattened_array_u64 may reject an integer outside [-2^63, 2^64); if it accepts it the bytes must be the integer mod 2^w",
+            "ndarray inputs are manufactured through to_ndarray of a zero value and overwritten element-wise (the harness crate has no direct ndarray dependency); their shape and logical order are asserted before use",
+            "to_ndarray::<bool> is only specified for BIT arrays",
+        ],
+        &[
+            "evaluations",
+            "scalar_cases",
+            "scalar_reduced_mod_2w",
+            "scalar_sign_extended_reads",
+            "scalar_bit_rejects",
+            "flat_cases",
+            "flat_getter_checks",
+            "flat_reinterpretations",
+            "ndarray_roundtrips",
+            "ndarray_noncontiguous",
+            "bits_patterns",
+            "bits_ragged_patterns",
+            "bits_stray_reads",
+            "ctype_accept",
+            "ctype_reject",
+            "ctype_wrong_arity_rejects",
+            "json_roundtrips",
+            "json_negative_numbers",
+            "json_numbers_over_64_bits",
+            "json_nested_depth2",
+        ],
+    )
+}
+
+pub fn replay(_r: &Report, rec: &J) -> i32 {
+    let case = &rec["case"];
+    let want = rec["signature"].as_str().unwrap_or("").to_string();
+    let mut acc = Acc::default();
+    let section = case["section"].as_str().unwrap_or("");
+    let ok = match section {
+        "scalar" => conv::replay_scalar(case, &mut acc),
+        "flat" => conv::replay_flat(case, &mut acc),
+        "bits" => conv::replay_bits(case, &mut acc),
+        "ctype" => ctype::replay(case, &mut acc),
+        "json" => tjson::replay(case, &mut acc),
+        _ => false,
+    };
+    if !ok {
+        println!("MACHINERY-ERROR property=C13 cannot decode replay case (section '{}')", section);
+        return 2;
+    }
+    println!("REPLAY property=C13 section={} case={}", section, case);
+    if acc.fails.is_empty() {
+        println!("REPLAY property=C13 all expectations hold on this case: not reproduced");
+        return 0;
+    }
+    let mut hit = false;
+    for f in acc.fails.iter() {
+        println!("REPLAY property=C13 signature={} {}", f.sig, f.what);
+        if f.sig == want {
+            hit = true;
+        }
+    }
+    if hit || want.is_empty() {
+        println!("REPLAY property=C13 reproduced");
+        1
+    } else {
+        println!("REPLAY property=C13 recorded signature {} not reproduced (other expectations fail)", want);
+        1
+    }
+}
+
+pub fn jerr(section: &str, rest: J) -> J {
+    let mut m = serde_json::Map::new();
+    m.insert("section".into(), json!(section));
+    if let J::Object(o) = rest {
+        for (k, v) in o {
+            m.insert(k, v);
+        }
+    }
+    J::Object(m)
 }
